@@ -7,6 +7,7 @@ use std::panic::{catch_unwind, AssertUnwindSafe};
 
 mod util;
 mod c07;
+mod c08;
 
 pub type Gen = fn(&mut util::Rng, &str) -> String;
 pub type Exec = fn(&[&str]) -> String;
@@ -14,6 +15,7 @@ pub type Exec = fn(&[&str]) -> String;
 fn table(prop: &str) -> Option<(Gen, Exec)> {
     match prop {
         "C07" => Some((c07::gen, c07::exec)),
+        "C08" => Some((c08::gen, c08::exec)),
         _ => None,
     }
 }
